@@ -56,7 +56,7 @@ static int kit_numeric_tag(sexp_uint_t tag) {
   return tag == SEXP_BIGNUM || tag == SEXP_BYTES || tag == SEXP_FLONUM || tag == SEXP_SYMBOL;
 }
 
-#define KIT_CASE(k) case k: return numeric ? kit_alloc_in(k) : kit_alloc_n(k);
+#define KIT_CASE(k) case k: if (k <= KIT_MAX_WORDS) return numeric ? kit_alloc_in(k) : kit_alloc_n(k); break;
 static void *kit_alloc_words2(size_t bytes, int numeric) {
   size_t n = (bytes + sizeof(sexp_uint_t) - 1) / sizeof(sexp_uint_t);
 #ifdef KIT_NATIVE
